@@ -220,9 +220,14 @@ def _fd_rows(txt):
 
 
 def _acct(sq, pid):
-    """(Number_FD, rows of the descriptor table, /proc count while quiet)"""
-    pq = _stable_nfd(pid)
-    info, fds = _mgr(sq, ["info", "filedescriptors"])
+    """(Number_FD, rows of the descriptor table, /proc count while quiet); the /proc count is taken before and after
+    the two reports (made over one connection) and must be the same, otherwise the measurement is repeated"""
+    for _ in range(6):
+        pq = _stable_nfd(pid)
+        info, fds = _mgr(sq, ["info", "filedescriptors"])
+        pq2 = _stable_nfd(pid)
+        if pq == pq2:
+            break
     m = re.search(r"Number of file desc currently in use:\s*(\d+)", info)
     rows = _fd_rows(fds)
     return (int(m.group(1)) if m else -1), rows, pq
